@@ -37,6 +37,7 @@ type caseStats struct {
 	touchedVal, touchedAcc                 bool
 	finaliseBeforeNested                   bool
 	nestedReverts                          int
+	reopens                                int // Commit + state.New executed
 	rootsSkipped                           int // reverts whose Copy-roots were not compared (see goSide.roots)
 	guardFail, modelSteps                  int // model steps outside / inside+outside the theorems' guard (Lean `opOKB`)
 }
@@ -137,6 +138,11 @@ func runCase(ops []string, drv *vh.Driver) (*failure, caseStats, error) {
 				gf[5], lf[5] = cur.Stake.String(), cur.Stake.String()
 			}
 		}
+		if f[0] == "ss" && f[3] == "=c" {
+			// write the slot back to its committed value (what GetCommittedState returns: pending over origin)
+			v := g.st.GetCommittedState(accAddr(atoi(f[1])), hashOf(atoi(f[2]))).Big().String()
+			gf[3], lf[3] = v, v
+		}
 		if f[0] == "dg" && f[3] == "-all" {
 			// withdraw the whole delegation: the amount is read from the real validator record
 			cur := g.st.GetValidatorByMainAddr(valAddr(atoi(f[2])))
@@ -169,8 +175,11 @@ func runCase(ops []string, drv *vh.Driver) (*failure, caseStats, error) {
 			cs.touchedVal = true
 		case "ab", "sb", "bal", "non", "code", "ss", "sui", "ca":
 			cs.touchedAcc = true
-		case "fin", "root":
+		case "fin", "root", "reopen":
 			sawFinalise = true
+			if f[0] == "reopen" {
+				cs.reopens++
+			}
 		}
 		lr := ask(strings.Join(lf, " "))
 		if derr != nil {
@@ -495,7 +504,11 @@ func genCase(r *vh.RNG, flavour string) []string {
 			g.emit("root 1")
 			g.removeOK = true
 		case 3:
-			g.emit("root 0")
+			if r.Chance(50) {
+				g.emit("reopen")
+			} else {
+				g.emit("root 0")
+			}
 			g.removeOK = true
 		}
 	}
@@ -581,10 +594,97 @@ func genDelegationLists(r *vh.RNG) []string {
 			g.revertAt(r.Intn(len(g.stack)))
 		}
 		g.stack = nil
-		if r.Chance(70) {
+		switch r.Weighted([]int{65, 25, 10}) {
+		case 0:
 			g.emit("fin 1")
-		} else {
+		case 1:
 			g.emit("root 1")
+		case 2:
+			g.emit("reopen")
+		}
+	}
+	g.emit("root 1")
+	return g.ops
+}
+
+// storage stream: two accounts, two slots, values from a tiny pool (0, 1, 2 and "the committed value"), the same slot
+// written in several transactions separated by Finalise (writes parked in pendingStorage) or IntermediateRoot (pending
+// moved to originStorage / the trie), restores to the pre-transaction and pre-block values, and snapshot / write / revert
+// on exactly those slots at any nesting depth.
+func genStorage(r *vh.RNG) []string {
+	g := &gen{r: r, flavour: "storage"}
+	accs := []int{256, 257}
+	keys := []int{1, 2}
+	write := func() {
+		a, k := accs[r.Intn(2)], keys[r.Intn(2)]
+		if r.Chance(70) {
+			a, k = 256, 1
+		}
+		v := strconv.Itoa(r.Intn(3))
+		if r.Chance(20) {
+			v = "=c"
+		}
+		g.emit(fmt.Sprintf("ss %d %d %s", a, k, v))
+	}
+	g.emit("ab 256 5")
+	if r.Chance(50) { // non-zero origin: the slot is in the trie before the block's first transaction
+		g.emit(fmt.Sprintf("ss 256 1 %d", 1+r.Intn(2)))
+		g.emit("root 1")
+	}
+	nTx := r.Range(2, 5)
+	for tx := 0; tx < nTx; tx++ {
+		g.emit(fmt.Sprintf("prep %d %d", hashIDs[r.Intn(len(hashIDs))], tx))
+		n := r.Range(3, 12)
+		for k := 0; k < n; k++ {
+			switch r.Weighted([]int{50, 6, 20, 16, 8}) {
+			case 0:
+				write()
+			case 1:
+				switch r.Intn(4) {
+				case 0:
+					g.emit("sui 256")
+				case 1:
+					g.emit("ca 256")
+				case 2:
+					g.emit("ab 256 1")
+				case 3:
+					g.emit("non 257 1")
+				}
+			case 2:
+				if len(g.stack) < 4 {
+					l := fmt.Sprintf("L%d", g.nextL)
+					g.nextL++
+					g.stack = append(g.stack, frame{label: l})
+					g.emit("snap " + l)
+					write() // a write right after the snapshot, on the hot slot most of the time
+				}
+			case 3:
+				if len(g.stack) > 0 {
+					k := len(g.stack) - 1
+					if r.Chance(25) {
+						k = r.Intn(len(g.stack))
+					}
+					g.revertAt(k)
+				}
+			case 4:
+				if k := len(g.stack) - 1; k >= 0 {
+					g.stack = g.stack[:k]
+				}
+			}
+		}
+		if r.Chance(60) && len(g.stack) > 0 {
+			g.revertAt(r.Intn(len(g.stack)))
+		}
+		g.stack = nil
+		switch r.Weighted([]int{60, 5, 20, 15}) {
+		case 0:
+			g.emit("fin 1")
+		case 1:
+			g.emit("fin 0")
+		case 2:
+			g.emit("root 1")
+		case 3:
+			g.emit("reopen") // next block on a reopened StateDB: the slots now come from the trie (non-zero origin)
 		}
 	}
 	g.emit("root 1")
@@ -719,10 +819,12 @@ func run(c *vh.Ctx) error {
 	totalOps, totalRev, nested, crashes, guardFail, modelSteps, rootsSkipped := 0, 0, 0, 0, 0, 0, 0
 	for i := 0; i < n; i++ {
 		r := c.R.Fork()
-		flavour := []string{"plain", "deleg", "ripemd", "malformed", "dlist"}[r.Weighted([]int{58, 10, 5, 12, 15})]
+		flavour := []string{"plain", "deleg", "ripemd", "malformed", "dlist", "storage"}[r.Weighted([]int{46, 9, 5, 11, 14, 15})]
 		var ops []string
 		if flavour == "dlist" {
 			ops = genDelegationLists(r)
+		} else if flavour == "storage" {
+			ops = genStorage(r)
 		} else {
 			ops = genCase(r, flavour)
 		}
@@ -751,6 +853,9 @@ func run(c *vh.Ctx) error {
 		}
 		totalRev += cs.reverts
 		rootsSkipped += cs.rootsSkipped
+		if cs.reopens > 0 {
+			res.Dist("cases-continued-on-a-reopened-StateDB")
+		}
 		nested += cs.nestedReverts
 		if drv != nil {
 			res.TracesVsImpl++
